@@ -2065,7 +2065,7 @@ class LazyStackedTensorDict(TensorDictBase):
                 multithread_set=multithread_set,
             )
             results.append(local_out)
-        if filter_empty and all(r is None for r in results):
+        if filter_empty in (None, True) and all(r is None for r in results):
             return
         if not inplace:
             out = type(self)(
